@@ -1,6 +1,7 @@
 import Drx.Dir
 import Drx.Idx
 import Drx.DirReal
+import Drx.BitdFast
 import Drx.Drv.Util
 namespace Drx.Drv.Dir
 open Drx Drx.Drv Drx.Dir
@@ -46,6 +47,19 @@ def stubs : Decoders where
 /-- "default" = DRX_ENCODING unset = util.get_encoding()'s default 'mac_roman' -/
 def codecOf (name : String) : Option Codec := if name = "default" then some Codec.macRoman else Codec.ofName name
 
+/-- images with more pixels than this are decoded by the array-based twin in the DRIVER (the list model paints one pixel per list
+    update: quadratic time, minutes from 100 000 px on) -/
+def fastPixels : Nat := 4096
+
+/-- DRIVER ONLY: `DirReal.realDecoders` with ONE field changed — the bitmap decoder behind the same adapter (`bitdRealWith`) is
+    `Bitd.Fast.bitd2bmpFast` (lean/Drx/BitdFast.lean, `Array UInt8`; no theorem is about it, it is compared with the list model
+    `Bitd.bitd2bmpI` on every C06 case) for canvases above `fastPixels`, and the list model itself below. The theorems of
+    DrxProps/C05Real.lean are about `realDecoders` (list model everywhere). -/
+def realDecodersFast (c : Codec) : Decoders :=
+  { DirReal.realDecoders c with
+    bitd := DirReal.bitdRealWith fun r =>
+      if (r.width + r.padW.natAbs) * (r.height + r.padH.natAbs) > fastPixels then Bitd.Fast.bitd2bmpFast r else Bitd.bitd2bmpI r }
+
 /-- the resource table `parseDir` hands to `assemble` (same steps) -/
 def resources (o : Order) (P : Nat) (d : Bytes) : R (List Res) := do
   let chunks ← Riff.parseRiff d P o
@@ -74,7 +88,7 @@ def castLoopDiag (D : Decoders) (rs : List Res) (key : KeyData) (fm : J) : List 
 
 /-- every part of the assembly on its own ("error" where that part fails): localises a disagreement to a sub-model -/
 def realParts (c : Codec) (o : Order) (P : Nat) (d : Bytes) : J :=
-  let D := DirReal.realDecoders c
+  let D := realDecodersFast c
   match resources o P d with
   | .error _ => J.s "error"
   | .ok rs =>
@@ -97,7 +111,12 @@ def run : List String → Option String
     let o ← parseOrder o; let off ← parseNat off; let b ← bytesOfHex h
     some (rJ DirectorFile.toJ (parseDir stubs o off b))
   | ["real", c, o, off, h] => do
-    -- the whole pipeline of the repository: the assembly model over the real decoder models (Drx/DirReal.lean)
+    -- the whole pipeline of the repository: the assembly model over the real decoder models (Drx/DirReal.lean); bitmaps above
+    -- `fastPixels` through the array-based twin of the bitmap model (`realDecodersFast`)
+    let c ← codecOf c; let o ← parseOrder o; let off ← parseNat off; let b ← bytesOfHex h
+    some (rJ DirectorFile.toJ (parseDir (realDecodersFast c) o off b))
+  | ["realslow", c, o, off, h] => do
+    -- exactly the model of the theorems: `parseDirReal` = the list-based bitmap model for every size
     let c ← codecOf c; let o ← parseOrder o; let off ← parseNat off; let b ← bytesOfHex h
     some (rJ DirectorFile.toJ (DirReal.parseDirReal c o off b))
   | ["realparts", c, o, off, h] => do
